@@ -297,6 +297,15 @@ impl Property for C01 {
                     }
                 }
             }
+            Err(m) if key == "prog" && opt(&opts, "normalize_doc_attributes") == Some("true") && doc_attr_shares_line(src) => {
+                // the known doc-attribute class (KF-C01-1) with an output that still parses: the
+                // swallowed item header shows up as altered doc comment text
+                if !judge_known {
+                    o.excluded.push("known-class:doc-attribute-swallows-item".into());
+                    return o;
+                }
+                return Outcome::fail("tokens/doc-attribute-swallows-item", format!("{}\n{src}\n--->\n{}", m.msg, o1.text)).nontrivial(true);
+            }
             Err(m) => {
                 // general grammar programs: the sequential token comparison is greedy and cannot
                 // always align parentheses that rustfmt adds or removes; there the tree comparison
